@@ -130,6 +130,23 @@ func genC13(t *core.Tape, tier string) *Scenario {
 					sc.Notes["closed_twice"]++
 				}
 			}
+			// a caller that calls Receive once more after the stream has ended (a
+			// drain helper, a loop that looks at Err() afterwards): whatever the
+			// library kept of the end of the stream is looked at again
+			if (p.Kind == KServer || p.Kind == KBidi) && t.Bool(1, 3, "receive.past.end") {
+				if p.Kind == KServer {
+					p.RecvPastEnd = true
+				}
+				for _, prog := range []*[]COp{&p.CProg, &p.CProgRcv} {
+					for i, op := range *prog {
+						if op.Op == "recvall" && p.Kind == KBidi {
+							*prog = append((*prog)[:i+1:i+1], append([]COp{{Op: "recvmore"}}, (*prog)[i+1:]...)...)
+							break
+						}
+					}
+				}
+				sc.Notes["receive_past_end"]++
+			}
 			// now and then a neighbour is a corrupt compressed request or response
 			if t.Bool(1, 8, "bad.neighbour") {
 				cc := sc.Clients[p.Client]
